@@ -23,7 +23,9 @@ TRUSTED = [
     "x + timedelta, x.weekday(), isinstance(x, datetime), datetime.fromordinal(d.toordinal()), <, > and - between "
     "date/datetime objects incl. the same-object / UTC rule, timedelta.days/.seconds/.microseconds, weekdays[i], "
     "attributes of a weekday object, `a or b`, truthiness of Optional values), exercised by rdgen.* on every run; "
-    "(b) __repr__, the `weeks` property and its setter (hand model RDH.weeksOf / setWeeks, ops rd.weeks / rd.setweeks / rd.hist), "
+    "(b) the primitives of __repr__ and the `weeks` property, which are themselves translated and proved equal to RDH.reprOf / "
+    "weeksOf / setWeeks (gen_repr_weeks_eq_model): '{:+g}'.format(int) (RDPy.fmtPlusG, |v| < 2**53), repr(int) / repr(None), "
+    "int(x / 7.0) as the truncated quotient (|x| < 2**53), the class name 'relativedelta' (a subclass prints its own); "
     "__div__ by anything but +-2^k, `*` by non-dyadic floats, float-valued FIELDS and normalized() of them (not translated; "
     "the dyadic primitives RDPy.Dy / intMulDy / truncDy / recipPow2 are the exact reading of IEEE double arithmetic, valid while "
     "|field*m| < 2**53: the correspondence stays inside that range). The hashed tuple is "
@@ -37,6 +39,10 @@ TRUSTED = [
     "Model/RelativeDelta.lean (mk, add, sub, neg, abs, addTimedelta, mulInt, bool, eq, hashKey) is hand-written and tied by "
     "the correspondence ops rd.mk / rd.expr (random expression trees) / rd.bool / rd.eq / rd.hash, and rd.add (applyTo, on the values and their weekday n re-spellings: what eq_applyTo rests on); the tuple passed to "
     "hash() is captured in-process (module-level name `hash` shadowed for the duration of the call) and compared with hashKey",
+    "harness/translate_wd.py (WdPy; runtime primitives Model/WdPy.lean: the object as the pair of its two __slots__, Py.getIdx, "
+    "truthiness of an Optional int, the format \"%s(%+d)\") re-translates dateutil._common.weekday (all 7 methods) and "
+    "rrule.weekday.__init__ into Generated/WdOps.lean on every run; a method outside the translated set, other slots or any "
+    "construct outside the fragment is a broken tie; validated against the implementation by harness/props/wdlib.py (wdgen.*)",
     "the ydayidx literal of __init__ is read from the working tree's AST and compared with the model's table (rd.ydayidx)",
     "PROVED since the dyadic extension (theorems gen_scale_eq_model, mulDyadic_spec, mulDyadic_exact, mulDyadic_int, "
     "normalized_spec): on INTEGER-valued records `*` by any m/2^k (all integers, 0.5, 1.5, 0.25 ...), `/` by +-2^k and "
@@ -222,6 +228,8 @@ def correspondence(ctx):
         reqs.append("rd.bool " + w); exp.append("ok %d" % (1 if d else 0))
         ht, _ = capture_hash_tuple(d)
         reqs.append("rd.hash " + w); exp.append("ok " + ht)
+        if L.is_int_valued(d) and max_field(d) < 2 ** 53:
+            reqs.append("rd.repr " + w); exp.append(L.run(lambda: repr(d), L.vlib.hexs))
     n_pairs = ctx.budget(3000, 40000)
     npair_eq = 0
     for _ in range(n_pairs):
@@ -231,6 +239,7 @@ def correspondence(ctx):
         npair_eq += e
         reqs.append("rd.eq %s %s" % (L.rd_wire(a), L.rd_wire(b)))
         exp.append("ok %d %d" % (e, hash(a) == hash(b)))   # hash part checked one-directionally below
+        reqs.append("rdgen.ne %s %s" % (L.rd_wire(a), L.rd_wire(b))); exp.append("ok %d" % (a != b))
     ctx.count("corr_eq_pairs_equal", npair_eq)
     # (5) applyTo on the values and their weekday re-spellings (the tie eq_applyTo rests on, inside C16's own run)
     n_add = ctx.budget(3000, 40000)
@@ -271,6 +280,19 @@ def correspondence(ctx):
             ctx.count("corr_divp2")
             reqs.append("rd.normalized " + w); exp.append(L.run(lambda: d.normalized(), L.rd_wire))
             ctx.count("corr_normalized")
+    # (9) repr: the `+g` rendering of every magnitude class (boundaries of the 6-significant-digit rounding, ties, carries)
+    for v in [0, 1, -1, 999999, 1000000, 1000001, 1234565, 1234575, 1234566, 9999994, 9999995, 9999996, 99999949, 99999950,
+              10 ** 9, 123456789012, 2 ** 52, 2 ** 53 - 1, -(2 ** 53 - 1), 1500000, 2500000, 10 ** 15 + 5 * 10 ** 9] \
+            + [rng.randint(-2 ** 53 + 1, 2 ** 53 - 1) for _ in range(ctx.budget(400, 4000))] \
+            + [rng.randint(1, 9) * 10 ** rng.randint(0, 15) + rng.choice([0, 5, -5]) * 10 ** rng.randint(0, 9) for _ in range(200)]:
+        if abs(v) >= 2 ** 53:
+            continue
+        d = relativedelta()
+        d.days = v; d.years = -v
+        reqs.append("rd.repr " + L.rd_wire(d)); exp.append(L.run(lambda: repr(d), L.vlib.hexs))
+        ctx.count("corr_repr_plus_g")
+    # (8) dateutil._common.weekday: the translated methods and the hand model against the implementation
+    from props import wdlib; wdlib.correspondence(ctx)
     # (6) the history of one object: use -> mutate (weeks setter / attribute assignment) -> use; after EVERY step the model
     #     on the current record, rd.setweeks, rd.hist; and the source audit the model's "a use leaves the record alone" rests on
     history_audit(ctx)
